@@ -1350,31 +1350,29 @@ _Y = 'pytask.py'
 _M = 'utils/misc.py'
 _W = 'raptor/worker.py'
 
-# proposed repairs (proposed_fixes/F15.diff, C19-N1-task_method.diff,
-# C19-N2-pytask_kwargs.diff)
-_FIX15 = (_T, "            self.raptor_class = self.worker_class\n            self.raptor_class = ''",
-              "            self.raptor_class = self.worker_class\n            self.worker_class = ''")
-_FIXN1 = (_W, "        task['description']['function'] = task['description']['method']\n",
-              "        descr = task['description']\n\n        descr['function'] = descr.get('method') or descr['function']\n")
-_FIXN2 = (_Y, "                'kwargs': kwargs}\n\n        return serialize_bson(task)\n\n\n\n",
-              "                'kwargs': kwargs or {}}\n\n        return serialize_bson(task)\n\n\n\n")
-
 MUTATIONS = [
+    dict(name='R19.1 F15 reverted: worker_class block clears raptor_class', rules=('R19.1',), edits=[
+        (_T, "            self.raptor_class = self.worker_class\n            self.worker_class = ''",
+             "            self.raptor_class = self.worker_class\n            self.raptor_class = ''")]),
+    dict(name='R19.2b N1 reverted: method dispatcher reads description[method]', rules=('R19.2b',), edits=[
+        (_W, "        descr = task['description']\n\n        descr['function'] = descr.get('method') or descr['function']\n",
+             "        task['description']['function'] = task['description']['method']\n")]),
+    dict(name='R19.4 N2 reverted: kwargs stored as None', rules=('R19.4',), edits=[
+        (_Y, "                'kwargs': kwargs or {}}", "                'kwargs': kwargs}")]),
     dict(name='R19.1 cpu_processes cleared before it is copied', rules=('R19.1',), edits=[
         (_T, "            self.ranks = self.cpu_processes\n            self.cpu_processes = 0\n",
              "            self.cpu_processes = 0\n            self.ranks = self.cpu_processes\n")]),
     dict(name='R19.1 F15 pattern in the scheduler block', rules=('R19.1',), edits=[
         (_T, "            self.raptor_id = self.scheduler\n            self.scheduler = ''",
              "            self.raptor_id = self.scheduler\n            self.raptor_id = ''")]),
-    dict(name='R19.1 F15 repaired, lfs_per_process mapped onto mem_per_rank', rules=('R19.1',), edits=[
-        _FIX15,
+    dict(name='R19.1 lfs_per_process mapped onto mem_per_rank', rules=('R19.1',), edits=[
         (_T, "            self.lfs_per_rank = self.lfs_per_process", "            self.mem_per_rank = self.lfs_per_process")]),
     dict(name='R19.1 cpu_threads reset to 1 instead of cleared', rules=('R19.1',), edits=[
         (_T, "            self.cpu_threads = 0", "            self.cpu_threads = 1")]),
     dict(name='R19.1 gpus_per_rank computed from the wrong deprecated attribute', rules=('R19.1',), edits=[
         (_T, "            self.gpus_per_rank = float(self.gpu_processes)", "            self.gpus_per_rank = float(self.gpu_threads)")]),
-    dict(name='R19.1 F15 repaired by deleting the copy', rules=('R19.1',), edits=[
-        (_T, "            self.raptor_class = self.worker_class\n            self.raptor_class = ''",
+    dict(name='R19.1 worker_class cleared without being copied', rules=('R19.1',), edits=[
+        (_T, "            self.raptor_class = self.worker_class\n            self.worker_class = ''",
              "            self.worker_class = ''")]),
     dict(name='R19.2 TASK_EVAL asks for command', rules=('R19.2',), edits=[
         (_T, "        elif self.mode == TASK_EVAL:\n            if not self.get('code'):",
@@ -1397,8 +1395,7 @@ MUTATIONS = [
         (_P, "            if not self.get('cores'):", "            if self.get('cores'):")]),
     dict(name='R19.2b shell dispatcher reads description[cmd]', rules=('R19.2b',), edits=[
         (_W, "            cmd = task['description']['command']", "            cmd = task['description']['cmd']")]),
-    dict(name='R19.2b N1 repaired, proc dispatcher reads description[exe]', rules=('R19.2b',), edits=[
-        _FIXN1,
+    dict(name='R19.2b proc dispatcher reads description[exe]', rules=('R19.2b',), edits=[
         (_W, "            exe  = task['description']['executable']", "            exe  = task['description']['exe']")]),
     dict(name='R19.4 deserialize_obj uses pickle', rules=('R19.4',), edits=[
         (_S, "        return dill.loads(data)", "        return pickle.loads(data)")]),
@@ -1416,8 +1413,7 @@ MUTATIONS = [
         (_Y, "            task = {'func'  : serialize_obj(f),", "            task = {'function': serialize_obj(f),")]),
     dict(name='R19.4 __new__ stores the function unserialized', rules=('R19.4',), edits=[
         (_Y, "        task = {'func'  : serialize_obj(func),", "        task = {'func'  : func,")]),
-    dict(name='R19.4 N2 repaired, args default becomes None', rules=('R19.4',), edits=[
-        _FIXN2,
+    dict(name='R19.4 args default becomes None', rules=('R19.4',), edits=[
         (_Y, "    def __new__(cls, func, args=(), kwargs=None):", "    def __new__(cls, func, args=None, kwargs=None):")]),
     dict(name='R19.4 decoder demands a key nobody encodes', rules=('R19.4',), edits=[
         (_Y, "for key in ('args', 'func', 'kwargs')):", "for key in ('args', 'function', 'kwargs')):")]),
@@ -1439,11 +1435,9 @@ MUTATIONS = [
 ]
 
 SILENT = [
-    dict(name='F15 repaired', edits=[_FIX15]),
-    dict(name='N1 and N2 repaired', edits=[_FIXN1, _FIXN2]),
-    dict(name='N2 repaired by normalising the parameter', edits=[
-        (_Y, "        task = {'func'  : serialize_obj(func),\n                'args'  : args,",
-             "        if kwargs is None:\n            kwargs = dict()\n\n        task = {'func'  : serialize_obj(func),\n                'args'  : args,")]),
+    dict(name='kwargs normalised before the dict is built', edits=[
+        (_Y, "        task = {'func'  : serialize_obj(func),\n                'args'  : args,\n                'kwargs': kwargs or {}}",
+             "        if kwargs is None:\n            kwargs = dict()\n\n        task = {'func'  : serialize_obj(func),\n                'args'  : args,\n                'kwargs': kwargs}")]),
     dict(name='alias block through a temporary', edits=[
         (_T, "            self.ranks = self.cpu_processes\n            self.cpu_processes = 0\n",
              "            value = self.cpu_processes\n            self.cpu_processes = 0\n            self.ranks = value\n")]),
@@ -1468,8 +1462,11 @@ SILENT = [
         (_Y, "        task = {'func'  : serialize_obj(func),\n", "        task = {'func'  : serialize_obj(func),\n                'v'     : 1,\n"),
         (_Y, "            task = {'func'  : serialize_obj(f),\n", "            task = {'func'  : serialize_obj(f),\n                    'v'     : 1,\n")]),
     dict(name='method dispatcher falls back with try/except KeyError', edits=[
-        (_W, "        task['description']['function'] = task['description']['method']\n",
-             "        try:\n            task['description']['function'] = task['description']['method']\n        except KeyError:\n            pass\n")]),
+        (_W, "        descr['function'] = descr.get('method') or descr['function']\n",
+             "        try:\n            descr['function'] = descr['method']\n        except KeyError:\n            pass\n")]),
+    dict(name='method dispatcher with a presence test', edits=[
+        (_W, "        descr['function'] = descr.get('method') or descr['function']\n",
+             "        if 'method' in descr:\n            descr['function'] = descr['method']\n")]),
     dict(name='dispatcher reads the description through a local name', edits=[
         (_W, "            cmd = task['description']['command']", "            descr = task['description']\n            cmd = descr['command']")]),
     dict(name='converter reads lfs with get()', edits=[
